@@ -40,7 +40,11 @@ Record ecase := EC {
   ec_res12 : option (rt * rt);              (* result before / after the input was mutated            *)
   ec_data : option (nat * nat);             (* exporters: rendering of the data before / after the input was mutated *)
   ec_dres : option (list dnode * id);       (* DAG handed back: its nodes, the returned node           *)
-  ec_dres12 : option (list dnode * list dnode)   (* ... before / after the input was mutated         *)
+  ec_dres12 : option (list dnode * list dnode);  (* ... before / after the input was mutated         *)
+  ec_pairs : list (id * bool * rt);         (* multi-pair tree-to-tree copies: per (from, to) pair the source
+                                               node, whether the whole subtree is expected, and the tree found at
+                                               the destination path afterwards                              *)
+  ec_expect_ok : bool                       (* the call is valid by construction: it must not raise    *)
 }.
 
 (* ------------------------------------------------------------------------------------------ *)
@@ -88,7 +92,10 @@ Definition observed (c : ecase) : clauses :=
       | _, _ => true end
       && match ec_dres c, dag_start (ec_fn c) with
          | Some (res, ret), Some st => dag_equal_part (ec_before c) st res ret
-         | _, _ => true end)
+         | _, _ => true end
+      && forallb (fun q : id * bool * rt =>
+                    let '(anchor, exact, t) := q in result_equal_part exact (ec_before c) anchor t)
+                 (ec_pairs c))
      (match ec_after_mr c with Some s => sig_eqb (ec_before c) s | None => true end)
      (match ec_res12 c with Some (a, b) => rt_eqb a b | None => true end
       && match ec_dres12 c with Some (a, b) => dres_eqb a b | None => true end
@@ -309,8 +316,13 @@ Definition agree_dag (c : ecase) : bool :=
   | _, _ => true
   end.
 
+(* the skeletons have no failure path: a call that is valid by construction returns *)
+Definition agree_returns (c : ecase) : bool :=
+  implb (ec_expect_ok c) (match ec_fn c with FRaised => false | _ => true end).
+
 Definition agree_C07 (c : ecase) : bool :=
-  implc (predicted c) (observed c) && agree_run c && agree_binary_clone c && agree_nodes c && agree_dag c.
+  implc (predicted c) (observed c) && agree_run c && agree_binary_clone c && agree_nodes c && agree_dag c
+  && agree_returns c.
 
 Definition well_formed_case (c : ecase) : bool :=
   Nat.eqb (length (sg_entries (ec_before c))) (ec_n c)
